@@ -16,7 +16,8 @@ COMP_NAMES = ["", "cytosol", "extra cellular", "C: x"]
 FORMULAS = [None, None, "H2O", "C6H12O6", "", "C10H12N5O13P3", "XR"]
 CHARGES = [None, None, 0, -2, 3, 1, -1]
 SUBSYSTEMS = ["", "", "Glycolysis", "S 1", "Transport, extracellular"]
-NOTES = [{}, {}, {}, {"a": "b"}, {"z": "1", "a": "2"}, {"note": "two words", "Z": "x", "_": ""}]
+NOTES = [{}, {}, {}, {"a": "b"}, {"z": "1", "a": "2"}, {"note": "two words", "Z": "x", "_": ""},
+         {"curated_by": None, "a": "x"}, {"score": 2, "ok": True, "nested": {"a": [1, None], "b": None}}]
 ANNOTS = [{}, {}, {}, {"sbo": "SBO:0000247"}, {"kegg.compound": ["C1", "C2"], "chebi": "CHEBI:1"},
           {"z": "1", "bigg.metabolite": "x", "a": ["1"]},
           # several identifiers for one provider where one is a prefix / substring of another
